@@ -1,5 +1,5 @@
 """./check <property> [--tier quick|thorough] [--only substr] | ./check --replay <path>"""
-import argparse, importlib, json, os, re, subprocess, sys, time, shutil
+import argparse, importlib, json, os, queue, re, subprocess, sys, time, shutil
 from . import common as C
 from . import kani as K
 
@@ -211,17 +211,23 @@ def main(argv=None):
     not_reproduced = []
     os.makedirs(os.path.join(C.REPLAYS, prop), exist_ok=True)
     if violations:
-        pool = K.Pool(1)
-        d = pool.acquire()
-        for h, r, unknown in violations:
+        # Replaying is expensive (a second CBMC run with trace generation per harness): candidates are replayed cheapest first,
+        # four at a time, and replaying stops once MAX_CONFIRMED counterexamples have reproduced natively -- one reproduced
+        # counterexample already decides the exit code. Candidates that were not replayed are listed as such (never as VIOLATION).
+        MAX_CONFIRMED = int(os.environ.get("VERIF_MAX_REPLAYS", "2"))
+        violations.sort(key=lambda x: x[1].time)
+        rlock = threading.Lock()
+        pool = K.Pool(min(4, len(violations)))
+        skipped = []
+
+        def replay_one(h, r, unknown):
             rp = os.path.join(C.REPLAYS, prop, h.name + ".rs")
             hdr = "// failing checks:\n" + "".join(
                 f"//   {f['desc']} @ {f['file']}:{f['line']} in {f['func']}\n" for f in unknown)
             if a.no_replay:
                 with open(rp, "w") as f:
                     f.write(f"// harness {h.full}\n" + hdr)
-                confirmed.append((h, rp, unknown, "not replayed (--no-replay)"))
-                continue
+                return ("confirmed", (h, rp, unknown, "not replayed (--no-replay)"))
             if h.kv.get("native"):
                 # families whose counterexamples are reconstructed natively (Kani's concrete playback does not finish on them):
                 # the native generator rebuilds the scenario with the repo's real prover and searches the obligation's small
@@ -230,11 +236,13 @@ def main(argv=None):
                 with open(rp, "w") as f:
                     f.write(f"// harness {h.full} ({h.desc})\n// native: {h.kv['native']}\n// replay: cd /verif && ./check --replay {rp}\n" + hdr + "// " + out.strip().replace("\n", "\n// ") + "\n")
                 if ok:
-                    confirmed.append((h, rp, unknown, "reproduced natively (wf-native " + h.kv["native"] + "): " + out.strip()[:200]))
-                else:
-                    not_reproduced.append((h, "native reconstruction found no witness: " + out.strip()[:200]))
-                continue
-            tests, pout = K.concrete_playback(h, d)
+                    return ("confirmed", (h, rp, unknown, "reproduced natively (wf-native " + h.kv["native"] + "): " + out.strip()[:200]))
+                return ("not", (h, "native reconstruction found no witness: " + out.strip()[:200]))
+            d = pool.acquire()
+            try:
+                tests, pout = K.concrete_playback(h, d)
+            finally:
+                pool.release(d)
             if not tests and getattr(h, "hang", False) and h.kv.get("hang_domain"):
                 # Kani emits no playback for an exceeded unwinding bound: reconstruct candidates from the harness's
                 # single small symbolic byte (confirmation only -- the solver decided that the bound is exceeded)
@@ -242,8 +250,7 @@ def main(argv=None):
                          f"    kani::concrete_playback_run(concrete_vals, {h.name});\n}}\n" for v in range(int(h.kv["hang_domain"]))]
             if not tests:
                 # unwinding / timeouts etc.: cannot produce a concrete input -> inconclusive, never VIOLATION
-                not_reproduced.append((h, "no concrete playback produced"))
-                continue
+                return ("not", (h, "no concrete playback produced"))
             rep = None
             used = None
             for t in tests[:8]:
@@ -256,10 +263,49 @@ def main(argv=None):
             with open(rp, "w") as f:
                 f.write(f"// harness {h.full} ({h.desc})\n// replay: cd /verif && ./check --replay {rp}\n" + hdr + "\n" + (used or ""))
             if rep:
-                confirmed.append((h, rp, unknown, "reproduced natively (cargo kani playback, dev profile)"))
-            else:
-                not_reproduced.append((h, "counterexample did not reproduce natively" if rep is False else "replay could not be run"))
-        pool.release(d)
+                return ("confirmed", (h, rp, unknown, "reproduced natively (cargo kani playback, dev profile)"))
+            return ("not", (h, "counterexample did not reproduce natively" if rep is False else "replay could not be run"))
+
+        wq = queue.Queue()
+        for v in violations:
+            wq.put(v)
+
+        def rworker():
+            while True:
+                with rlock:
+                    if len(confirmed) >= MAX_CONFIRMED:
+                        return
+                try:
+                    h, r, unknown = wq.get_nowait()
+                except queue.Empty:
+                    return
+                try:
+                    kind, val = replay_one(h, r, unknown)
+                except Exception as e:  # noqa
+                    kind, val = "not", (h, "replay raised " + repr(e)[:200])
+                with rlock:
+                    (confirmed if kind == "confirmed" else not_reproduced).append(val)
+
+        rts = [threading.Thread(target=rworker) for _ in range(min(4, len(violations)))]
+        for t in rts:
+            t.start()
+        for t in rts:
+            t.join()
+        while True:
+            try:
+                h, r, unknown = wq.get_nowait()
+            except queue.Empty:
+                break
+            skipped.append(h)
+            for row in rows:
+                if row.get("harness") == h.full:
+                    row["verdict"] = "violation-candidate-not-replayed"
+        if skipped:
+            C.log(f"NOTE {len(skipped)} further failing obligation(s) not replayed (replaying stops after {MAX_CONFIRMED} reproduced counterexamples): "
+                  + ", ".join(x.name for x in skipped[:12]))
+            if not confirmed:
+                for x in skipped:
+                    not_reproduced.append((x, "not replayed"))
         pool.close()
     for o, r in smt_viol:
         rp = os.path.join(C.REPLAYS, prop, o.name + ".json")
